@@ -9,6 +9,7 @@ package main
 
 import (
 	"bufio"
+	"crypto/sha1"
 	"encoding/json"
 	"fmt"
 	"go/ast"
@@ -80,6 +81,15 @@ type coldObs struct {
 	File    int       `json:"file"`
 	Reports []hReport `json:"reports"`
 	Err     string    `json:"err,omitempty"`
+	Sig     string    `json:"sig"` // digest of the rule set and the file: both processes must talk about the same pair
+}
+
+func coldSig(rules string, src []byte) string {
+	h := sha1.New()
+	h.Write([]byte(rules))
+	h.Write([]byte{0})
+	h.Write(src)
+	return fmt.Sprintf("%x", h.Sum(nil))
 }
 
 // runColdChild: rule sets in descending order, files in descending order, declarations in descending order, each
@@ -92,7 +102,7 @@ func runColdChild(enc *json.Encoder, variants []hVariant, engineFor func(int, st
 			continue
 		}
 		for fi := len(pool) - 1; fi >= 0; fi-- {
-			obs := coldObs{K: "coldref", Variant: vi, File: fi}
+			obs := coldObs{K: "coldref", Variant: vi, File: fi, Sig: coldSig(variants[vi].rules, pool[fi].Src)}
 			decls := pool[fi].File.Decls
 			per := make([][]hReport, len(decls))
 			for di := len(decls) - 1; di >= 0 && obs.Err == ""; di-- {
@@ -138,7 +148,7 @@ func finishColdChild(enc *json.Encoder, cp *coldProc, variants []hVariant, srcs 
 		enc.Encode(hObs{K: "cold", Err: "child process: " + cp.err})
 		return
 	}
-	n := 0
+	n, diverged := 0, 0
 	for cp.out.Scan() {
 		line := cp.out.Bytes()
 		if len(line) == 0 || line[0] != '{' {
@@ -150,7 +160,11 @@ func finishColdChild(enc *json.Encoder, cp *coldProc, variants []hVariant, srcs 
 		}
 		obs := hObs{K: "cold", Variant: o.Variant, Calls: []hCall{{File: o.File, State: "nil", PanicAt: -1}}, Kinds: map[string]int{}}
 		want, ok := ref(o.Variant, o.File)
-		if !ok || o.Variant >= len(variants) {
+		if !ok || o.Variant >= len(variants) || o.File >= len(srcs) {
+			continue
+		}
+		if o.Sig != coldSig(variants[o.Variant].rules, []byte(srcs[o.File])) {
+			diverged++ // a sporadic `go list` failure dropped a generated group in one process only: not comparable
 			continue
 		}
 		n++
@@ -171,7 +185,7 @@ func finishColdChild(enc *json.Encoder, cp *coldProc, variants []hVariant, srcs 
 		enc.Encode(obs)
 	}
 	if err := cp.cmd.Wait(); err != nil || n == 0 {
-		enc.Encode(hObs{K: "cold", Err: fmt.Sprintf("child process: %v, %d answers", err, n)})
+		enc.Encode(hObs{K: "cold", Err: fmt.Sprintf("child process: %v, %d answers, %d not comparable", err, n, diverged)})
 	}
 }
 
